@@ -11,7 +11,7 @@ from harness import core
 
 ID = 'C25'
 TITLE = 'Migrations are total and reach the current schema'
-PROPS = ['Props/C25']
+PROPS = ['Props/C25', 'Props/C25_bodies']
 RULE = ('Documents "at version K" are generated offline for every K in 0..SCHEMA_VERSION: the version-0 schema of '
         'test_migrations + the real migrations 1..K give the version-K metadata schema; every metadata table gets 0-3 '
         'rows of type-correct cells in the form create_migrations receives them (references to existing rows or 0, '
@@ -235,6 +235,32 @@ def plan_user_tables(rng, version, variant):
   return tables
 
 
+def boost(rng, tds, version, plan):
+  """Make the data-dependent branches of the parsing migrations likely: cells that refer to each other."""
+  T = tds.all_tables
+  sec, fld_, col = T['_grist_Views_section'], T['_grist_Views_section_field'], T['_grist_Tables_column']
+  if version < 15 and sec.row_ids and fld_.row_ids:
+    fld_.columns['parentId'][0] = sec.row_ids[0]
+    sec.columns['filterSpec'][0] = json.dumps({str(fld_.columns['colRef'][0]): rng.choice([[1, 2], {'included': ['a']}, 5])})
+  if version < 16:
+    for i, ty in enumerate(col.columns['type']):
+      if isinstance(ty, str) and ty.startswith('Ref:'):
+        target = [p for p in plan if p[0] == ty[4:]]
+        vis = rng.choice([c['colId'] for c in target[0][2]] + ['id']) if target else 'A'
+        col.columns['widgetOptions'][i] = json.dumps({'visibleCol': vis, 'alignment': 'left'})
+        if fld_.row_ids:
+          fld_.columns['colRef'][0] = col.row_ids[i]
+          fld_.columns['widgetOptions'][0] = json.dumps({'wrap': True, 'visibleCol': vis})
+        break
+  acl = T.get('_grist_ACLRules')
+  if acl is not None and 'aclFormulaParsed' in acl.columns and 'memo' not in acl.columns and acl.row_ids:
+    acl.columns['aclFormulaParsed'][-1] = rng.choice(['["Comment",["Const",true],"memo text"]',
+                                                      '["Comment",["Name","x"],{"a":[1]},4]'])
+  if 'rules' in col.columns and version < 29 and col.row_ids:
+    col.columns['rules'][0] = rng.choice(['[99]', '[%d]' % col.row_ids[-1], '5'])
+    col.columns['widgetOptions'][0] = rng.choice(['{"rulesOptions":[1],"widget":"TextBox"}', '', 'junk', '{}'])
+
+
 class Doc(object):
   """A generated document: `tds` is the real TableDataSet holding it (metadata + user tables)."""
   def __init__(self, version, stream, variant, tds, user_tables, extra=()):
@@ -315,6 +341,8 @@ def gen_doc(rng, version, stream='expected', variant=None):
   for c in ('docId', 'peers', 'basketId'):
     if c in info.columns:
       tds.apply_doc_action(actions.UpdateRecord('_grist_DocInfo', 1, {c: text_cell(rng, c, stream)}))
+  if stream != 'robust' and rng.random() < 0.6:
+    boost(rng, tds, version, plan)
   # the user tables themselves, with a few rows
   for name, _si, cols in plan:
     tds.apply_doc_action(actions.AddTable(name, [
@@ -419,12 +447,40 @@ def run_doc(doc, metadata_only=False):
   cur = schema.SCHEMA_VERSION
   saved = dict(migrations.all_migrations)
   saved_tds = migrations.table_data_set
+  import summary
+  r.dumps = []                      # (value as passed, compact separators?, text returned): the dumps oracle
+  class JsonSpy(object):
+    loads = staticmethod(json.loads)
+    JSONDecodeError = json.JSONDecodeError
+    @staticmethod
+    def dumps(obj, **kw):
+      out = json.dumps(obj, **kw)
+      extra = set(kw) - {'separators'}
+      r.dumps.append((copy.deepcopy(obj), kw.get('separators') == (',', ':'), out, bool(extra)))
+      return out
+  if not hasattr(migrations, 'json') or not hasattr(summary, 'json'):
+    raise core.TieBroken('migrations.json / summary.json: instrumentation points not found')
+  import identifiers
+  if getattr(migrations, 'identifiers', None) is not identifiers or not hasattr(identifiers, 'pick_col_ident'):
+    raise core.TieBroken('migrations.identifiers.pick_col_ident / pick_table_ident: instrumentation points not found')
+  r.picks = []                      # (function, suggested ident, avoid as a list, result): the pick oracles
+  saved_picks = (identifiers.pick_col_ident, identifiers.pick_table_ident)
+  def spy_pick(name, fn):
+    def w(ident, avoid=set()):
+      before = list(avoid)
+      out = fn(ident, avoid=avoid)
+      r.picks.append((name, ident, before, out))
+      return out
+    return w
   class FakeMod(object):
     TableDataSet = Spy
   try:
     for v in range(0, cur + 2):
       migrations.all_migrations[v] = wrap(v, saved.get(v, migrations.noop_migration))
     migrations.table_data_set = FakeMod
+    migrations.json = summary.json = JsonSpy
+    identifiers.pick_col_ident = spy_pick('col', saved_picks[0])
+    identifiers.pick_table_ident = spy_pick('table', saved_picks[1])
     try:
       r.acts = migrations.create_migrations(doc.all_tables(metadata_only), metadata_only)
     except Exception as e:
@@ -433,6 +489,8 @@ def run_doc(doc, metadata_only=False):
     migrations.all_migrations.clear()
     migrations.all_migrations.update(saved)
     migrations.table_data_set = saved_tds
+    migrations.json = summary.json = json
+    identifiers.pick_col_ident, identifiers.pick_table_ident = saved_picks
   if len(seen) != 1:
     raise core.TieBroken('create_migrations no longer builds exactly one TableDataSet (%d)' % len(seen))
   if r.T0 is None:
@@ -756,13 +814,13 @@ class Unencodable(Exception):
 class Pool(object):
   """Shared sub-terms of the generated cases as typed Coq definitions (names k<N>_): a big literal elaborates
   slowly, a reference does not; each shard gets only the definitions it uses."""
-  def __init__(self):
-    self.defs, self.index = [], {}
+  def __init__(self, prefix='k'):
+    self.defs, self.index, self.prefix = [], {}, prefix
 
   def ref(self, typ, text):
     n = self.index.get((typ, text))
     if n is None:
-      n = 'k%d_' % len(self.defs)
+      n = '%s%d_' % (self.prefix, len(self.defs))
       self.index[(typ, text)] = n
       self.defs.append((typ, text))
     return n
@@ -771,12 +829,13 @@ class Pool(object):
     import re
     need, todo = set(), [t for t in part]
     while todo:
-      for m in re.findall(r'\bk(\d+)_', todo.pop()):
+      for m in re.findall(r'\b%s(\d+)_' % self.prefix, todo.pop()):
         i = int(m)
         if i < len(self.defs) and i not in need:
           need.add(i)
           todo.append(self.defs[i][1])
-    return '\n'.join('Definition k%d_ : %s := %s.' % (i, self.defs[i][0], self.defs[i][1]) for i in sorted(need))
+    return '\n'.join('Definition %s%d_ : %s := %s.' % (self.prefix, i, self.defs[i][0], self.defs[i][1])
+                     for i in sorted(need))
 
 POOL = Pool()
 
@@ -802,6 +861,8 @@ def cval(v):
     return 'VStr %s' % cstr(v)
   if isinstance(v, (list, tuple)):
     return 'VList %s' % core.coq_list(['(%s)' % cval(x) for x in v])
+  if isinstance(v, dict):
+    return 'VDict %s' % core.coq_list(['(%s, (%s))' % (cstr(k), cval(x)) for k, x in v.items()])
   raise Unencodable('value %r' % (v,))
 
 
@@ -1027,7 +1088,7 @@ def driver_monitor():
 # ---------------------------------------------------------------------------------------------
 # correspond: the model's TableDataSet and driver against the running code
 
-IMPORTS = ['Grist.Model.Migrate']
+IMPORTS = ['Grist.Model.Migrate', 'Grist.Model.MigrateSites', 'Grist.Model.MigrateBodies', 'GristGen.MigrateConst_gen']
 VARIANTS = [None, None, None, 'v0_lax', 'mishap38']
 
 
@@ -1040,7 +1101,7 @@ def doc_stream(ctx, per_version, stream, variants=VARIANTS):
         variant = 'v0_lax'
       if v == 38 and k == 0:
         variant = 'mishap38'
-      yield gen_doc(ctx.rng, v, stream, variant)
+      yield gen_doc(ctx.rng, v, ctx.rng.choice(['expected', 'anyjson']) if stream == 'mixed' else stream, variant)
 
 
 def shard8(cases):
@@ -1072,7 +1133,7 @@ def correspond(ctx):
   # 2. real migrations on generated documents of every version: driver model + the returned actions replayed
   lcases, runs = [], []
   empty = ({}, {})
-  for doc in doc_stream(ctx, ctx.n(1, 4), 'expected'):
+  for doc in doc_stream(ctx, ctx.n(1, 4), 'mixed'):
     mo = ctx.rng.random() < 0.3
     r = run_doc(doc, mo)
     needall = r.exc is not None and str(r.exc).startswith('need all tables')
@@ -1081,11 +1142,17 @@ def correspond(ctx):
     try:
       d = driver_case(r)
       a = apply_case(empty, [], None, empty) if needall else apply_case(r.before, r.acts, None, r.after)
+      b = bodies_case(r)
     except Unencodable as e:
       ctx.bump('link:outside-model-domain')
       continue
-    lcases.append('(%s, %s)' % (d, a))
-    runs.append((r, d, a))
+    lcases.append('(%s, %s, %s)' % (d, a, b))
+    runs.append((r, d, a, b))
+    for v, acts in r.rec:
+      if v in modelled():
+        ctx.bump('bodies:m%d compared' % v)
+        if any('Record' in type(x).__name__ for x in acts):
+          ctx.bump('bodies:m%d compared, with record actions' % v)
     ctx.count(('link', lcases[-1]), nontrivial=bool(r.rec) or needall,
               kind='link:v%02d' % doc.version,
               sample={'stream': 'real migrations replayed in the model', 'version': doc.version,
@@ -1096,7 +1163,7 @@ def correspond(ctx):
   if len(runs) < current_version():
     raise core.TieBroken('only %d of the generated documents could be replayed in the model' % len(runs))
   ctx.log('link: %d documents run and encoded' % len(lcases))
-  both = 'fun c => (%s) (fst c) && (%s) (snd c)' % (DRIVER_CHECK, APPLY_CHECK)
+  both = "fun c => let '(d, a, b) := c in (%s) d && (%s) a && (%s) b" % (DRIVER_CHECK, APPLY_CHECK, BODIES_CHECK)
   # both streams are evaluated by Coq at the same time (two waves of coqc processes)
   import threading
   res = {}
@@ -1111,9 +1178,9 @@ def correspond(ctx):
         threading.Thread(target=wave, args=('link', 'link', IMPORTS, both, lcases),
                          kwargs=dict(shard=max(1, -(-len(lcases) // 3)) if ctx.tier == 'quick' else 12, timeout=900,
                                      extra_defs=POOL.defs_for,
-                                     case_type='(%s) * (%s)' % (DRIVER_TYPE, APPLY_TYPE)))]
+                                     case_type='(%s) * (%s) * (%s)' % (DRIVER_TYPE, APPLY_TYPE, BODIES_TYPE)))]
   scases, sinfo = site_cases(ctx)
-  th.append(threading.Thread(target=wave, args=('sites', 'sites', IMPORTS + ['Grist.Model.MigrateSites'], SITE_CHECK,
+  th.append(threading.Thread(target=wave, args=('sites', 'sites', IMPORTS, SITE_CHECK,
                                                 scases),
                              kwargs=dict(shard=len(scases) if ctx.tier == 'quick' else 600, timeout=900, extra_defs=POOL.defs_for,
                                          case_type=SITE_TYPE)))
@@ -1133,7 +1200,19 @@ def correspond(ctx):
                'actions %r on %r (real: %r)' % (kept[i][1], kept[i][0], kept[i][2]))
   bad = res['link']
   for i in bad[:3]:
-    r, d, a = runs[i]
+    r, d, a, b = runs[i]
+    if ctx.run_cases('link_b%d' % i, IMPORTS, BODIES_CHECK, [b], extra_defs=POOL.defs_for, case_type=BODIES_TYPE):
+      for v in modelled():
+        if v in [x for x, _ in r.rec] and ctx.run_cases(
+            'link_b%d_%d' % (i, v), IMPORTS, "fun c => let '(o, T0, rec) := c in check_body_at const_bodies (%s) o T0 rec" % core.zlit(v),
+            [b], extra_defs=POOL.defs_for, case_type=BODIES_TYPE):
+          ctx.broken('correspondence:modelled body of migration %d differs from the real migration' % v,
+                     'document at version %d; real actions %r' % (r.doc.version, dict(r.rec)[v]))
+        if v in [x for x, _ in r.rec] and ctx.run_cases(
+            'link_p%d_%d' % (i, v), IMPORTS, "fun c => let '(o, T0, rec) := c in check_body_at const_bodies (%s) o T0 rec" % core.zlit(-v),
+            [b], extra_defs=POOL.defs_for, case_type=BODIES_TYPE):
+          ctx.broken('premise:a generated document is outside the hypotheses of the totality theorem of migration %d' % v,
+                     'document at version %d' % r.doc.version)
     where = 'document at version %d (metadata_only=%r), migrations run %r' % (
       r.doc.version, r.metadata_only, [v for v, _ in r.rec])
     if ctx.run_cases('link_d%d' % i, IMPORTS, DRIVER_CHECK, [d], extra_defs=POOL.defs_for, case_type=DRIVER_TYPE):
@@ -1360,3 +1439,203 @@ def site_cases(ctx):
       if ws and code:
         ctx.broken('sites:migration %d raises on a cell of the expected shape' % n, '%r -> %r' % (text, r.exc))
   return cases, info
+
+
+# ---------------------------------------------------------------------------------------------
+# Modelled migration BODIES (Model/MigrateBodies.v): oracle tables for one run, and the case term
+
+HAND_MODELLED = [7, 10, 15, 16, 29, 34, 35, 45]          # versions whose body Model/MigrateBodies.v models (body_of)
+
+
+def modelled():
+  """Versions whose body is modelled: by hand, or translated as a constant list this run."""
+  if 'consts' not in _cache:
+    _cache['consts'] = const_migrations()
+  return sorted(set(HAND_MODELLED) | set(_cache['consts']))
+
+
+def secs_of(x):
+  try:
+    return 'Ok %s' % core.zlit(int(x / 1000))
+  except (TypeError, ValueError, OverflowError) as e:
+    return 'Err %d%%Z' % SITE_EXC[type(e).__name__]
+
+
+def cjnum(x):
+  return cjson(x)[len('JNum '):]
+
+
+def oracles_term(r):
+  """mkOracles: json.loads of every string cell of the loaded tdset, the json.dumps calls the real run made,
+  int(x / 1000) of every number found under timeCreated/timeUpdated."""
+  texts, parsed = [], {}
+  for t, (rows, cols) in r.T0[0].items():
+    if t.startswith(GRIST):
+      for c, vs in cols.items():
+        for v in vs:
+          if isinstance(v, str) and v not in parsed:
+            try:
+              parsed[v] = ('(Some (%s))' % cjson(json.loads(v)))
+            except ValueError:
+              parsed[v] = 'None'
+            except RecursionError:
+              raise Unencodable('json nesting')
+            texts.append(v)
+  ptab = core.coq_list(['(%s, %s)' % (cstr(v), parsed[v]) for v in texts])
+  nums = []
+  for v in texts:
+    try:
+      j = json.loads(v)
+    except ValueError:
+      continue
+    if isinstance(j, dict):
+      for k in ('timeCreated', 'timeUpdated'):
+        x = j.get(k)
+        if isinstance(x, (int, float)) and not isinstance(x, bool) and not any(x is y or (x == y and type(x) is type(y)) for y in nums):
+          nums.append(x)
+  stab = core.coq_list(['(%s, %s)' % (cjnum(x), secs_of(x)) for x in nums])
+  if any(extra for _, _, _, extra in r.dumps):
+    raise Unencodable('json.dumps called with options the model does not know')
+  d1 = core.coq_list(['((%s), %s)' % (cjson(o), cstr(out)) for o, compact, out, _ in r.dumps if not compact])
+  d2 = core.coq_list(['((%s), %s)' % (cjson(o), cstr(out)) for o, compact, out, _ in r.dumps if compact])
+  for name, ident, avoid, out in r.picks:
+    if name == 'col' and ident != 'gristHelper_Display':
+      raise Unencodable('pick_col_ident called with another suggestion')
+  pc = core.coq_list(['(%s, %s)' % (core.coq_list([cstr(a) for a in avoid]), cstr(out))
+                      for name, ident, avoid, out in r.picks if name == 'col'])
+  strj, seen = [], []
+  for v in texts:
+    try:
+      j = json.loads(v)
+    except ValueError:
+      continue
+    x = j.get('visibleCol') if isinstance(j, dict) else None
+    if x is not None and not isinstance(x, str) and repr(x) not in seen:
+      seen.append(repr(x))
+      strj.append('((%s), %s)' % (cjson(x), cstr('%s' % (x,))))
+  rx = summary_regex()
+  names = []
+  for v in r.T0[0].get('_grist_Tables', ([], {}))[1].get('tableId', []):
+    if isinstance(v, str) and v not in names:
+      names.append(v)
+  def groups(n):
+    m = rx.match(n)
+    return 'None' if not m else '(Some (%s, %s))' % (cstr(m.group(1)), cstr(m.group(2)))
+  summ = core.coq_list(['(%s, %s)' % (cstr(n), groups(n)) for n in names])
+  pt = core.coq_list(['((%s, %s), %s)' % (cstr(ident), core.coq_list([cstr(a) for a in avoid]), cstr(out))
+                      for name, ident, avoid, out in r.picks if name == 'table'])
+  return '(mkOracles %s %s %s %s %s %s %s %s)' % (ptab, d1, d2, stab, pc, core.coq_list(strj), summ, pt)
+
+
+def summary_regex():
+  """The regular expression migration 7 compiles for old-style summary table names, taken from its source."""
+  if 'rx' not in _cache:
+    import re, textwrap
+    fn = mods()[1].all_migrations.get(7)
+    pats = []
+    if fn is not None:
+      for n in ast.walk(ast.parse(textwrap.dedent(inspect.getsource(fn)))):
+        if isinstance(n, ast.Assign) and len(n.targets) == 1 and getattr(n.targets[0], 'id', None) == 'summary_re' and \
+           isinstance(n.value, ast.Call) and getattr(n.value.func, 'attr', None) == 'compile' and \
+           len(n.value.args) == 1 and isinstance(n.value.args[0], ast.Constant):
+          pats.append(n.value.args[0].value)
+    if len(pats) != 1:
+      raise core.TieBroken('migration 7: summary_re = re.compile(<constant>) not found')
+    _cache['rx'] = re.compile(pats[0])
+  return _cache['rx']
+
+
+def bodies_case(r):
+  rec = core.coq_list(['(%s, %s)' % (core.zlit(v), cacts(acts)) for v, acts in r.rec])
+  return '(%s, %s, %s)' % (oracles_term(r), ctds(r.T0), rec)
+
+BODIES_TYPE = 'oracles * tds * list (Z * list action)'
+BODIES_CHECK = "fun c => let '(o, T0, rec) := c in check_bodies const_bodies o T0 rec"
+
+
+# ---------------------------------------------------------------------------------------------
+# regenerate: migrations whose body is a constant list of doc actions, translated from the source
+
+# the versions found constant when this check was built; one of them no longer translating breaks the tie
+EXPECTED_CONST = {5, 6, 8, 9, 11, 12, 13, 14, 18, 19, 21, 22, 23, 24, 27, 32, 33, 36, 37, 38, 41, 42, 43, 44, 46}
+_ALLOWED_NODES = (ast.Call, ast.Attribute, ast.Name, ast.Constant, ast.List, ast.Dict, ast.keyword, ast.Load,
+                  ast.Expression)
+
+
+def const_actions_of(fn):
+  """The literal list of actions a migration hands to tdset.apply_doc_actions, or None when its body is
+  anything else (reads the tdset, loops, ...).  Elements are evaluated with the real add_column /
+  schema.make_column / actions.* helpers, from an AST that may contain nothing but calls to them on constants."""
+  actions, migrations, schema, _, _, _ = mods()
+  import textwrap
+  top = ast.parse(textwrap.dedent(inspect.getsource(fn))).body[0]
+  body = list(top.body)
+  arg = top.args.args[0].arg
+  if body and isinstance(body[0], ast.Expr) and isinstance(getattr(body[0], 'value', None), ast.Constant):
+    body = body[1:]                                   # docstring
+  def applied(ret):
+    c = ret.value if isinstance(ret, ast.Return) else None
+    if isinstance(c, ast.Call) and isinstance(c.func, ast.Attribute) and c.func.attr == 'apply_doc_actions' and \
+       isinstance(c.func.value, ast.Name) and c.func.value.id == arg and len(c.args) == 1 and not c.keywords:
+      return c.args[0]
+    return None
+  lst = None
+  if len(body) == 1 and isinstance(applied(body[0]), ast.List):
+    lst = applied(body[0])
+  elif len(body) == 2 and isinstance(body[0], ast.Assign) and len(body[0].targets) == 1 and \
+       isinstance(body[0].targets[0], ast.Name) and isinstance(body[0].value, ast.List) and \
+       isinstance(applied(body[1]), ast.Name) and applied(body[1]).id == body[0].targets[0].id:
+    lst = body[0].value
+  if lst is None:
+    return None
+  env = {'__builtins__': {}, 'add_column': migrations.add_column, 'actions': actions, 'schema': schema}
+  out = []
+  for elt in lst.elts:
+    for n in ast.walk(elt):
+      if not isinstance(n, _ALLOWED_NODES) or (isinstance(n, ast.Name) and n.id not in env):
+        return None
+    a = eval(compile(ast.Expression(elt), '<migration>', 'eval'), env)
+    if type(a).__name__ not in actions.action_types or type(a).__name__ == 'TableData':
+      return None
+    out.append(a)
+  return out
+
+
+def const_migrations():
+  _, migrations, _, _, _, _ = mods()
+  out = {}
+  for v, fn in sorted(migrations.all_migrations.items()):
+    try:
+      acts = const_actions_of(fn)
+    except Exception:
+      acts = None
+    if acts is not None:
+      out[v] = acts
+  return out
+
+
+def regenerate(ctx):
+  global POOL
+  consts = const_migrations()
+  missing = sorted(EXPECTED_CONST - set(consts))
+  if missing:
+    raise core.TieBroken('migrations %r no longer have a constant body (tdset.apply_doc_actions([...constants...]))'
+                         % missing)
+  saved, POOL = POOL, Pool('cg')
+  try:
+    items = ['(%s, %s)' % (core.zlit(v), core.coq_list([cact_text(a) for a in acts])) for v, acts in sorted(consts.items())]
+    defs = POOL.defs_for(items)
+  except Unencodable as e:
+    raise core.TieBroken('a constant migration emits a value outside the model: %s' % e)
+  finally:
+    POOL = saved
+  text = ('(* GENERATED by harness/props/c25.py from %s/migrations.py on every run: the migrations whose body is\n'
+          '   `return tdset.apply_doc_actions([<constants>])`, with the literal list each one emits. *)\n'
+          'From Coq Require Import ZArith Bool String List.\nImport ListNotations.\n'
+          'Require Import Grist.Model.Migrate.\nOpen Scope Z_scope.\n%s\n'
+          'Definition const_bodies : list (Z * list action) := [\n  %s\n].\n'
+          % (core.GRIST, defs, ';\n  '.join(items)))
+  os.makedirs(os.path.join(core.COQ, 'gen'), exist_ok=True)
+  core.write_if_changed(os.path.join(core.COQ, 'gen', 'MigrateConst_gen.v'), text)
+  ctx.extra['constant_migrations_translated'] = sorted(consts)
+  _cache['consts'] = consts
